@@ -101,11 +101,19 @@ def run(ctx):
         inner = [n for n in sw[0].body if isinstance(n, ast.If)]
         oks = len(inner) == 1 and U(inner[0].test) == "max(self.get_throughput_sum(kernel)) > best_kernel_tp"
         if oks:
-            body = U(inner[0])
-            oks = "kernel[i].port_uops = best_kernel[i].port_uops" in body and "kernel[i].port_pressure = best_kernel[i].port_pressure" in body
+            # the pressure of every line is taken over from the best alternative (what the totals are computed from)
+            loops = [l for l in ast.walk(inner[0]) if isinstance(l, ast.For) and "best_kernel" in U(l.iter)]
+            oks = False
+            for l in loops:
+                elem = U(l.target.elts[1]) if isinstance(l.target, ast.Tuple) and len(l.target.elts) == 2 else None
+                idx = U(l.target.elts[0]) if elem else U(l.target)
+                for st in l.body:
+                    if isinstance(st, ast.Assign) and U(st.targets[0]) == "kernel[%s].port_pressure" % idx and U(st.value) in (
+                            "best_kernel[%s].port_pressure" % idx, "%s.port_pressure" % elem):
+                        oks = True
     ctx.check(oks, "P4", "swapping: take the best alternative iff the main branch's bottleneck is strictly larger", f.where(sw[0]) if sw else f.where(),
-              "the final choice between main branch and best alternative is not `max(totals(main)) > best` copying port_uops and "
-              "port_pressure of every line", f.qname, "swap in best")
+              "the final choice between main branch and best alternative is not `max(totals(main)) > best` taking over the "
+              "port_pressure of every line unconditionally", f.qname, "swap in best")
     if sw:
         ctx.check(cfg.dominates(pm.find("kernel.reverse()", f.node)[-1][0], sw[0]) if len(pm.find("kernel.reverse()", f.node)) == 2 else False, "P4",
                   "the comparison happens after the kernel order was restored", f.where(sw[0]),
